@@ -46,7 +46,7 @@ class PandasDataFrameCache(FileCache):
         """
         try:
             df = self.get_file(file_name)
-        except FileNotFoundError:
+        except (FileNotFoundError, IsADirectoryError):
             return pd.DataFrame() if default_empty else None
         if range_start is None:
             if range_end is None:
